@@ -1,7 +1,7 @@
 PROPERTY = {
     'id': 'C02',
     'contract_modules': ['doctest_example', 'util_stream', 'checker', 'doctest_part', 'runner'],
-    'functions': ['xdoctest.doctest_example:DocTest.run', 'xdoctest.doctest_example:DocTest._post_run',
+    'functions': ['xdoctest.doctest_example:DocTest.run', 'xdoctest.doctest_example:DocTest._post_run', 'xdoctest.doctest_example:DocTest.anything_ran',
                   'xdoctest.checker:check_got_vs_want',
                   'xdoctest.doctest_part:DoctestPart.check',
                   'xdoctest.checker:check_output'],
